@@ -18,6 +18,7 @@ import (
 	"bytes"
 	"os"
 	"path/filepath"
+	"sort"
 	"strconv"
 	"strings"
 
@@ -72,66 +73,73 @@ func (w *world) hlsState(name string) (mkdirs int, segs [][]byte) {
 	return
 }
 
-// outputsHave: the markers of the accepted input are in the enabled file output.  Inputs that reach lal through a
-// goroutine of lal's own (relay pull, GB28181 socket) are written asynchronously: the newest marker is waited for.
-func (w *world) outputsHave(ai int, a Action, st *streamModel) *pbt.Violation {
+// outputsMissing describes what of the accepted input's markers is not in the enabled file output ("" = all there).
+func (w *world) outputsMissing(st *streamModel) string {
 	in := st.in
 	switch w.c.Out {
 	case "flv":
-		var files map[string][]byte
-		ok := waitUntil(lalclient.DeliverTimeout, func() bool {
-			files = w.flvFiles(st.name)
-			for _, b := range files {
-				if hasAll(b, in.sent) {
-					return true
-				}
+		files := w.flvFiles(st.name)
+		for _, b := range files {
+			if hasAll(b, in.sent) {
+				return ""
 			}
-			return false
-		})
-		if !ok {
-			var where []string
-			for n, b := range files {
-				k := 0
-				for _, p := range in.sent {
-					if bytes.Contains(b, p) {
-						k++
-					}
-				}
-				where = append(where, n+": "+strconv.Itoa(k)+" of "+strconv.Itoa(len(in.sent)))
-			}
-			return pbt.V("A2/recording-disturbed", "after %s: no FLV recording of %s holds all %d markers the accepted input %s (%s) has sent since it was accepted (%s)", w.who(ai, a), st.name, len(in.sent), in.id, in.kind, strings.Join(where, "; "))
 		}
+		var where []string
+		for n, b := range files {
+			k := 0
+			for _, p := range in.sent {
+				if bytes.Contains(b, p) {
+					k++
+				}
+			}
+			where = append(where, n+": "+strconv.Itoa(k)+" of "+strconv.Itoa(len(in.sent)))
+		}
+		sort.Strings(where)
+		return "no FLV recording of " + st.name + " holds all " + strconv.Itoa(len(in.sent)) + " markers (" + strings.Join(where, "; ") + ")"
 	case "hls":
-		mk, _ := w.hlsState(st.name)
-		if mk != st.accepted {
-			return pbt.V("A2/hls-muxer-restarted", "after %s: %d inputs have been accepted for %s so far, but the HLS muxer of the stream was started %d times", w.who(ai, a), st.accepted, st.name, mk)
-		}
 		if !in.av {
-			return nil
+			return ""
 		}
-		missing := -1
-		ok := waitUntil(lalclient.DeliverTimeout, func() bool {
-			_, segs := w.hlsState(st.name)
-			for i, p := range in.sent {
-				found := false
-				for _, b := range segs {
-					if bytes.Contains(b, p) {
-						found = true
-						break
-					}
-				}
-				if !found {
-					missing = i
-					return false
+		_, segs := w.hlsState(st.name)
+		for i, p := range in.sent {
+			found := false
+			for _, b := range segs {
+				if bytes.Contains(b, p) {
+					found = true
+					break
 				}
 			}
-			return true
-		})
-		if !ok {
-			return pbt.V("A2/hls-disturbed", "after %s: marker %d of the %d the accepted input %s (%s) of %s has sent is in no HLS segment of the stream", w.who(ai, a), missing+1, len(in.sent), in.id, in.kind, st.name)
+			if !found {
+				return "marker " + strconv.Itoa(i+1) + " of " + strconv.Itoa(len(in.sent)) + " is in no HLS segment of " + st.name
+			}
 		}
 	}
-	return nil
+	return ""
+}
+
+// outputsHave: the markers of the accepted input are in the enabled file output.  Inputs that reach lal through a
+// goroutine of lal's own (relay pull, GB28181 socket) are written asynchronously: the newest marker is waited for
+// (and a GB28181 frame, which travels by UDP, repeated).
+func (w *world) outputsHave(ai int, a Action, st *streamModel, resend func()) *pbt.Violation {
+	in := st.in
+	tries, slice := 1, lalclient.DeliverTimeout
+	if resend != nil {
+		tries, slice = 10, slice/10
+	}
+	miss := ""
+	for try := 0; try < tries; try++ {
+		if waitUntil(slice, func() bool { miss = w.outputsMissing(st); return miss == "" }) {
+			return nil
+		}
+		if resend != nil {
+			resend()
+		}
+	}
+	sig := "A2/recording-disturbed"
+	if w.c.Out == "hls" {
+		sig = "A2/hls-disturbed"
+	}
+	return pbt.V(sig, "after %s: of what the accepted input %s (%s) has sent since it was accepted, %s", w.who(ai, a), in.id, in.kind, miss)
 }
 
 // outputsClean: the muxer count (also while no input sends anything) and nothing from refused inputs in the files.
